@@ -330,6 +330,15 @@ def run(ctx: Context, rep) -> None:
                        construct=short(c),
                        message="close_shard called from an unexpected function")
     rep.floor("C10.close", n_calls, 2, "instances")
+    # a recorded shard holds at least one example: it is listed only after
+    # its file is complete (same rule as C06.order for close_shard)
+    from sa.rules.c06 import check_close_order
+    rep.rule("C10.order", "close_shard: shard.close() precedes the append "
+             "to the list, which precedes the list write")
+    check_close_order(ctx, rep, "C10.order")
+    from sa.rules import shared as _sh
+    _sh.check_label_copy(ctx, rep, "C10.label-copy")
+
 
 
 _P = "src/sedpack/io/dataset_filler.py"
